@@ -19,7 +19,8 @@ DECIDED = ["R05a maintenance entry points call what they document (MUST)",
            "R05f cached DbVec length and stored length change together",
            "R05g DbIndexes keeps the in-memory and the stored index lists aligned",
            "R19t slot states of the hash tables are written only by insert / remove / full rehash (WHO table, shared)",
-           "R04b raw storage bytes are read only by the frozen readers (shared with C04)"]
+           "R04b raw storage bytes are read only by the frozen readers (shared with C04)",
+           "R19u a capacity change of a hash table runs the full rebuild (shared)"]
 UNDECIDED = ["equality of query results before/after the maintenance operation (needs execution)"]
 
 DB = "agdb::db::DbImpl::"
@@ -229,6 +230,7 @@ def run(ctx):
     # tombstone discipline of the open-addressing tables behind aliases and indexes (shrink_to_fit must keep every key reachable) (shared rule, rules/maps_common.py)
     from rules import maps_common
     maps_common.slot_state_rule(ctx)
+    maps_common.resize_rehash_rule(ctx)
     # data relocated by the compaction is read through the frozen raw readers only (R04b, shared with C04)
     from rules import C04
     C04.reader_rule(ctx)
